@@ -539,15 +539,75 @@ func (rc *richCase) tokens(line []vaxis.Cell) []int {
 	return out
 }
 
+// aliasWatch is the aliasing oracle of the rich scanners (round 3): the scanner is handed a slice
+// with spare capacity behind it (sentinel cells), every slice Text()/Line() returns is kept as it is
+// (not copied) together with a copy taken at that moment; after the iteration the caller's cells, the
+// spare capacity and every returned line must be what they were.  A scanner that compacts into the
+// caller's slice, appends into it, or reuses the token's array between Scans is reported as
+// "alias:<what>:" in front of the lines (driver: FAIL aliasing).
+type aliasWatch struct {
+	backing, before []vaxis.Cell
+	raw, snap       [][]vaxis.Cell
+}
+
+const aliasSpare = 4
+
+func newAliasWatch(cells []vaxis.Cell) (*aliasWatch, []vaxis.Cell) {
+	w := &aliasWatch{}
+	w.backing = make([]vaxis.Cell, len(cells)+aliasSpare)
+	copy(w.backing, cells)
+	for i := len(cells); i < len(w.backing); i++ {
+		w.backing[i] = vaxis.Cell{Character: vaxis.Character{Grapheme: "\x00spare", Width: 77}}
+	}
+	w.before = append([]vaxis.Cell(nil), w.backing...)
+	return w, w.backing[:len(cells)] // cap = len + aliasSpare
+}
+
+func (w *aliasWatch) got(line []vaxis.Cell) {
+	w.raw = append(w.raw, line)
+	w.snap = append(w.snap, append([]vaxis.Cell(nil), line...))
+}
+
+func sameCells(a, b []vaxis.Cell) bool {
+	if len(a) != len(b) {
+		return false
+	}
+	for i := range a {
+		if a[i] != b[i] {
+			return false
+		}
+	}
+	return true
+}
+
+func (w *aliasWatch) verdict() string {
+	n := len(w.backing) - aliasSpare
+	switch {
+	case !sameCells(w.backing[:n], w.before[:n]):
+		return "alias:input-cells-changed:"
+	case !sameCells(w.backing[n:], w.before[n:]):
+		return "alias:written-behind-the-input-slice:"
+	}
+	for i := range w.raw {
+		if !sameCells(w.raw[i], w.snap[i]) {
+			return fmt.Sprintf("alias:line-%d-changed-by-a-later-Scan:", i)
+		}
+	}
+	return ""
+}
+
+
 func (rc *richCase) runScan(width int) string {
 	var lines [][]int
 	limit := len(rc.cells) + 3
 	over := false
-	cells := append([]vaxis.Cell(nil), rc.cells...)
+	watch, cells := newAliasWatch(rc.cells)
 	res := guarded(func() {
 		sc := richtext.NewSoftwrapScanner(cells, uint16(width))
 		for sc.Scan() {
-			lines = append(lines, rc.tokens(sc.Text()))
+			t := sc.Text()
+			watch.got(t)
+			lines = append(lines, rc.tokens(t))
 			if len(lines) > limit {
 				over = true
 				return
@@ -560,18 +620,20 @@ func (rc *richCase) runScan(width int) string {
 	if res != "" {
 		return res
 	}
-	return encLines(lines)
+	return watch.verdict() + encLines(lines)
 }
 
 func (rc *richCase) runHard() string {
 	var lines [][]int
 	limit := len(rc.cells) + 3
 	over := false
-	cells := append([]vaxis.Cell(nil), rc.cells...)
+	watch, cells := newAliasWatch(rc.cells)
 	res := guarded(func() {
 		sc := richtext.NewHardwrapScanner(cells)
 		for sc.Scan() {
-			lines = append(lines, rc.tokens(sc.Line()))
+			t := sc.Line()
+			watch.got(t)
+			lines = append(lines, rc.tokens(t))
 			if len(lines) > limit {
 				over = true
 				return
@@ -584,7 +646,7 @@ func (rc *richCase) runHard() string {
 	if res != "" {
 		return res
 	}
-	return encLines(lines)
+	return watch.verdict() + encLines(lines)
 }
 
 // ---------- Draw ----------
